@@ -6,6 +6,7 @@ R13.2 per-operation decision tables over the atom M = "names equal", compared wi
       reference operations as *functions* (assignment -> effects on the result list).
 R13.3 both operands of every header-name comparison are lower-cased.
 R13.4 FilterHeaderAction::filter folds the actions in forward order, threading the list.
+R13.5 Action::filter_headers keeps every header filter admitted by its response-code guard, in order.
 """
 from riolib.core import MissingAnchor
 from riolib.prov import Prov, show, mentions, walk, mentions_field
@@ -373,7 +374,57 @@ def r13_4(ctx):
     ctx.run_rule("R13.4", "FilterHeaderAction::filter folds in forward order", body, floor=4)
 
 
+def r13_5(ctx):
+    """Action::filter_headers hands *every* header filter admitted by its response-code guard to
+    FilterHeaderAction, in the stored (rule) order: nothing about the filter's own contents or about
+    earlier filters may drop or reorder it."""
+    F = ctx.facts
+    from .c05 import loop_guard, PUSH_HEADER_FILTER
+
+    def body(r):
+        f = F.fn("action::Action::filter_headers")
+        r.analysed(f)
+        loop_guard(F, r, f, "header_filters", PUSH_HEADER_FILTER, "filter_headers:every-admitted-filter-kept", 3)
+        lps = [lp for lp in for_loops(f) if mentions_field(lp.source, "header_filters", "action::Action")]
+        if len(lps) != 1:
+            return
+        lp = lps[0]
+        fwd = not mentions(lp.source, lambda x: x[0] == "call" and any(w in x[1] for w in ("::rev", "::filter", "::skip", "::take", "::step_by", "::sort")))
+        r.ob("filter_headers:forward-order", fwd, f.loc(lp.line), "the loop walks %s front to back" % show(lp.source, f))
+        s = Sym(f, copies=True)
+        pushed_to = set()
+        for p in lp.iteration_paths(s):
+            for e in p.events:
+                if PUSH_HEADER_FILTER(e):
+                    pushed_to.add(e[2][0])
+        handed = set()
+        ret_ok = True
+        n_ret = 0
+        for p in s.paths(start=lp.exit):
+            if p.end[0] != "ret":
+                continue
+            n_ret += 1
+            for e in p.events:
+                if e[0] == "call" and e[1] == "filter::filter_header::FilterHeaderAction::new":
+                    handed.add(e[2][0])
+            # the returned list is FilterHeaderAction::filter(.., headers, ..) or, when no filter was built, headers
+            val = p.end[1]
+            if val[0] == "local":
+                inits = [e[3] for e in p.events if e[0] in ("init", "set") and e[1] == val[1]]
+                val = inits[-1] if inits else val
+            built = dict(p.conds).get(("disc", ("call", "filter::filter_header::FilterHeaderAction::new", tuple(handed)[:1]), "std::option::Option")) if handed else None
+            via_fold = val[0] == "call" and val[1] == "filter::filter_header::FilterHeaderAction::filter" and val[2][1] == ("param", 2)
+            if not ((built == "Some" and via_fold) or (built == "None" and val == ("param", 2))):
+                ret_ok = False
+        same = len(pushed_to) == 1 and len(handed) == 1 and (pushed_to == handed or all(mentions(h, lambda x: x in pushed_to) for h in handed))
+        r.ob("filter_headers:list-reaches-FilterHeaderAction", same, f.site, "the list the loop pushes to (%s) is the one handed to FilterHeaderAction::new (%s)" % ([show(x, f) for x in pushed_to], [show(x, f) for x in handed]))
+        r.ob("filter_headers:result-from-input-headers", ret_ok and n_ret >= 1, f.site, "every return derives from the caller's header list (%d paths)" % n_ret)
+
+    ctx.run_rule("R13.5", "every admitted header filter reaches the fold, in order", body, floor=4)
+
+
 def run(ctx):
     r13_1(ctx)
     r13_2_3(ctx)
     r13_4(ctx)
+    r13_5(ctx)
